@@ -355,6 +355,10 @@ impl Service {
             if i.healthy {
                 self.healthy_instance_size -= 1;
             } else {
+                // already unhealthy (for example registered as unhealthy): it never went through the
+                // branch below, so queue it for removal here, otherwise it would never expire
+                self.unhealthy_timeout_set
+                    .add(i.last_modified_millis as u64, instance_id.clone());
                 self.instances.insert(instance_id.clone(), i);
                 return;
             }
